@@ -81,6 +81,10 @@ T.update({
  'C18-c': ('C18', 'partial/idn/eav.c: GENERIC_RESTRICTED tested against the GENERIC bit (libidn back end only)', 'libidn build, allow_tld with exactly one of the two bits, TLD biz/name/pro'),
  'C19-c': ('C19', 'partial/idn2/is_utf8_domain.c: conversion failure detected by domain == NULL instead of the return code', 'an IDN failure that arrives together with an output buffer: treated as success'),
 })
+# round 7 (reject direction of is_ipv6)
+T.update({
+ 'C05-d': ('C05', 'src/is_ipv4_ipv6.c is_ipv6: colon-count guard of the dotted-quad tail "tightened" (with "::", at most 5 colons before the quad)', 'a leading "::" followed by four groups and a dotted quad ([IPv6:::1:2:3:4:192.0.2.1], valid IPv6v4-comp): rejected'),
+})
 # round 6 (after C20 was claimed and the RFC6531_FOLLOW_RFC5322 job was built)
 T.update({
  'C20-a': ('C20', 'bin/main.c parse_file: terminator stripping rewritten as two independent steps (LF, then CR): a lone CR at the end of a line is stripped too', 'a line that ends in CR without LF (last line of a file without final newline): the library is asked about the line without its last byte'),
@@ -116,6 +120,7 @@ for sid, (prop, change, needs) in T.items():
         'C09-b': 'missed (check passed, exit 0) by the machinery as it was when the seed was written; the contract gap it exposed was closed (DESIGN.md 11.4) and the log kept here is the run after that',
         'C17-b': 'missed (check passed, exit 0) by the machinery as it was when the seed was written; the contract gap it exposed was closed (DESIGN.md 11.4) and the log kept here is the run after that',
         'C20-a': 'missed (check passed) by the first version of job cli_parse_line: its strlen model returned the EXPECTED length instead of the position of a NUL in the buffer as the body left it, so a NUL written in the wrong place went unnoticed; the model now returns a prophesied index at which there is a NUL and the obligations say that this place is the terminator or a NUL of the line as read; the bounded jobs got an exact strlen.  The log kept here is the run after that',
+        'C05-d': 'missed (check passed) twice: by the machinery as it was when the seed was written (no obligation justified an early NO of is_ipv6), and by the first version of the reject-direction postcondition, in which a dot counted as a dead step of the hex-group automaton and so justified every NO at a dot; a dot is now justified only where no dotted quad may start.  The log kept here is the run after that',
         'C12-c': 'missed (check passed) by the machinery as it was when the seed was written: the conditions of the two dot codes overlapped for a leading double dot; the contracts now tell them apart by position and the log kept here is the run after that',
         'C15-c': 'missed by C15\'s quick tier as it was when the seed was written (no address-literal job in it; the C05/C16 checks did refute it); email_822_literal was added to C15\'s quick tier',
         'C01-c': 'verifier undecided (new loop without contract); reported as VIOLATION through the replay-oracle fallback once the oracle had a 6531 e-mail kind (concrete input u@d.xn--0, tld_check off)',
